@@ -130,7 +130,19 @@ pub fn term_of(v: &Val, rng: &mut Rng, style: Style) -> Option<OwnedTerm> {
         }
         Val::List { elems, tail } => {
             let e: Option<Vec<OwnedTerm>> = elems.iter().map(|x| term_of(x, rng, style)).collect();
-            let e = e?;
+            let mut e = e?;
+            // a list may also be held as a head whose tail is itself a list term (what decoding a LIST_EXT
+            // with a list tail yields, and what a user can build)
+            if style == Style::Mixed && e.len() >= 2 && rng.chance(1, 5) {
+                let k = 1 + rng.below(e.len() - 1);
+                let rest: Vec<OwnedTerm> = e.split_off(k);
+                let inner = if **tail == Val::Nil {
+                    OwnedTerm::List(rest)
+                } else {
+                    OwnedTerm::ImproperList { elements: rest, tail: Box::new(term_of(tail, rng, style)?) }
+                };
+                return Some(OwnedTerm::ImproperList { elements: e, tail: Box::new(inner) });
+            }
             if **tail == Val::Nil {
                 OwnedTerm::List(e)
             } else {
